@@ -178,6 +178,11 @@ func (k *keyManagementContext) generateNewDHKeyPair(randomness io.Reader) error 
 		return err
 	}
 
+	k.installNewDHKeyPair(newPrivKey)
+	return nil
+}
+
+func (k *keyManagementContext) installNewDHKeyPair(newPrivKey secretKeyValue) {
 	tryLock(newPrivKey)
 
 	k.ourPreviousDHKeys.wipe()
@@ -188,7 +193,6 @@ func (k *keyManagementContext) generateNewDHKeyPair(randomness io.Reader) error 
 		pub:  modExpPCT(g1ct, newPrivKey).GetBigInt(),
 	}
 	k.ourKeyID++
-	return nil
 }
 
 func (k *keyManagementContext) revealMACKeysForOurPreviousKeyID() {
@@ -210,8 +214,14 @@ func (c *Conversation) rotateKeys(dataMessage dataMsg) error {
 
 func (k *keyManagementContext) rotateOurKeys(recipientKeyID uint32, randomness io.Reader) error {
 	if recipientKeyID == k.ourKeyID {
+		// draw the new key first: if the randomness source fails nothing has been retired yet
+		newPrivKey, err := randSizedSecret(randomness, 40)
+		if err != nil {
+			return err
+		}
+
 		k.revealMACKeysForOurPreviousKeyID()
-		return k.generateNewDHKeyPair(randomness)
+		k.installNewDHKeyPair(newPrivKey)
 	}
 	return nil
 }
